@@ -43,6 +43,13 @@ pub struct Plan {
     pub faults: Vec<DFault>,
     pub one_literal: bool,
     pub sim: SimCfg,
+    /// the sources reach the compiler as FILES through the simulated disk and the typestate
+    /// builder is driven the way `bp` says (a definition must not be lost because of HOW its
+    /// source was handed over either)
+    #[serde(default)]
+    pub files: bool,
+    #[serde(default)]
+    pub bp: BuilderPath,
 }
 
 #[derive(Clone, Debug, Default, Serialize, Deserialize)]
@@ -233,7 +240,15 @@ impl Scenario for C10Faults {
         }
         // an end-of-source failure needs the faulted module to be (the end of) a source of its own
         let at_end = faults.iter().any(|f| matches!(f, DFault::LexAtEnd { .. }));
-        serde_json::to_value(&Plan { seed, set, backend, faults, one_literal: !at_end && w.chance(1, 3), sim: simcfg }).unwrap()
+        let one_literal = !at_end && w.chance(1, 3);
+        let mut hw = root.fork("hand-over");
+        let files = hw.chance(1, 3);
+        let bp = if hw.chance(1, 2) {
+            BuilderPath { output_first: hw.chance(1, 2), batch_paths: hw.chance(1, 2), swap_backend: hw.chance(1, 6), swap_late: false, legacy_path: false, output_mid: hw.chance(1, 2) }
+        } else {
+            BuilderPath::default()
+        };
+        serde_json::to_value(&Plan { seed, set, backend, faults, one_literal, sim: simcfg, files, bp }).unwrap()
     }
 
     /// fault-free run + leave-one-out attribution
@@ -313,9 +328,30 @@ impl Scenario for C10Faults {
         // there is exactly one source
         let texts: Vec<String> = if srcs.len() == 1 { srcs.iter().map(|s| if let Src::Literal(t) = s { t.clone() } else { String::new() }).collect() } else { vec![] };
         let be = p.backend.clone();
+        let srcs: Vec<Src> = if p.files {
+            out.count("probe.sources_handed_over_as_files", 1);
+            std::fs::create_dir_all(format!("{root}/src")).unwrap();
+            srcs.iter()
+                .enumerate()
+                .map(|(i, s)| match s {
+                    Src::Literal(t) => {
+                        let path = format!("{root}/src/m{i}.asn");
+                        std::fs::write(&path, t).unwrap();
+                        Src::Path(path)
+                    }
+                    other => other.clone(),
+                })
+                .collect()
+        } else {
+            srcs
+        };
+        if p.bp.output_mid && srcs.len() >= 2 {
+            out.count("probe.output_mode_set_between_two_sources", 1);
+        }
+        let bp = p.bp.clone();
         let body: sim::Body<CompileOut> = Box::new(move || {
             sim::op_begin("compile");
-            let r = sut::compile_to_string_render(&be, &srcs, &BuilderPath::default(), &texts);
+            let r = sut::compile_to_string_render(&be, &srcs, &bp, &texts);
             sim::op_end("compile");
             r
         });
@@ -355,9 +391,11 @@ impl Scenario for C10Faults {
                     DFault::LexAtEnd { module, kind } => format!("module {} fails to lex at the very end of its source ({kind})", p.set.modules[*module].name),
                 })
                 .collect::<Vec<_>>(),
-            r1.brief()
+            r1.brief().replace(root, "<ROOT>")
         );
-        out.log_hash = fnv1a(format!("{}|{}|{:?}", r1.brief(), fnv1a(r1.generated.as_bytes()), r1.sorted_warnings()).as_bytes());
+        // (the run's private directory has another name in every execution: error texts that quote a
+        // source path are normalised before they enter the digest)
+        out.log_hash = fnv1a(format!("{}|{}|{:?}", r1.brief(), fnv1a(r1.generated.as_bytes()), r1.sorted_warnings()).replace(root, "<ROOT>").as_bytes());
         // oracle 4: normal return, renderable
         if let Some(pn) = &r1.panic {
             out.violate("returns-normally", format!("panic {pn}; {ctx}"));
